@@ -134,6 +134,14 @@ func (s StrV) term() *Term {
 }
 
 // bytesTerms returns per-byte BV8 terms (atom-free strings only).
+// the 256 literal byte terms (terms are immutable)
+var byteLit = func() (t [256]*Term) {
+	for i := range t {
+		t[i] = mkBV(uint64(i), 8)
+	}
+	return
+}()
+
 func (s StrV) bytesTerms() []*Term {
 	var out []*Term
 	for _, g := range s.Segs {
@@ -144,7 +152,7 @@ func (s StrV) bytesTerms() []*Term {
 			out = append(out, g.Byte)
 		default:
 			for i := 0; i < len(g.Lit); i++ {
-				out = append(out, mkBV(uint64(g.Lit[i]), 8))
+				out = append(out, byteLit[g.Lit[i]])
 			}
 		}
 	}
@@ -178,15 +186,25 @@ func (s StrV) byteAt(idx int) *Term {
 }
 
 func strFromBytes(bs []*Term) StrV {
-	r := StrV{}
-	for _, b := range bs {
-		if b.Op == "bvlit" {
-			r = concatStr(r, strLit(string([]byte{byte(b.Val)})))
-		} else {
-			r = StrV{Segs: append(append([]Seg{}, r.Segs...), Seg{Byte: b})}
+	// linear: runs of literal bytes are collected before they become one segment (long rows: 64 KiB and more)
+	var segs []Seg
+	var lit []byte
+	flush := func() {
+		if len(lit) > 0 {
+			segs = append(segs, Seg{Lit: string(lit)})
+			lit = lit[:0]
 		}
 	}
-	return r
+	for _, b := range bs {
+		if b.Op == "bvlit" {
+			lit = append(lit, byte(b.Val))
+		} else {
+			flush()
+			segs = append(segs, Seg{Byte: b})
+		}
+	}
+	flush()
+	return StrV{Segs: segs}
 }
 
 type unsupportedErr struct{ msg string }
